@@ -11,4 +11,23 @@ PROPS = {
         level_note="Trusted: Verus/Z3, Kani/CBMC, the weaver (erasure-checked each run), Kani's nightly rustc vs the repo's stable rustc.",
         not_decided=[],
     ),
+    "C06": dict(
+        units=["A1", "A2", "A3"],
+        level="proof",
+        level_text="Exact rounding of multiply and faithful, saturating divide are postconditions of the real arithmetic functions, "
+                   "discharged by Verus for every 8-bit and every 16-bit (colour, alpha) pair (bit-vector and integer lemmas), the "
+                   "reciprocal tables by loop invariants over all entries.",
+        level_note="Trusted: Verus/Z3, Kani/CBMC, the weaver. div_and_clip16 is proved against the closed form of the table entry.",
+        not_decided=[],
+    ),
+    "C08": dict(
+        units=["T1"],
+        level="proof",
+        level_text="Claimed for the band-arithmetic and tiling clauses only: the band-count functions are total and in range for all "
+                   "u32 sizes, and (G5a) the split arithmetic yields an exact tiling for every part count, so no unwrap in the "
+                   "splitting path can fire. The for-all-schedules clause is NOT decided by this technique.",
+        level_note="Trusted: Verus/Z3, Kani/CBMC, the weaver. rayon glue macros are read, not verified; no thread is ever run.",
+        not_decided=["for all interleavings / OS schedules (Kani has no threads; Verus would need the code rewritten with permission types)",
+                     "that rayon executes exactly the (src band, dst band) tasks the split returns", "Send/Sync promise of UnsafeImageMut"],
+    ),
 }
